@@ -25,13 +25,18 @@ type raceScenario struct {
 	Name    string     `json:"name"`
 	Pending int        `json:"pending"` // entries appended (not replicated) before the threads start
 	Threads [][]string `json:"threads"` // ops: "step" (one replicator step if an entry is pending), "flush"
+	// Restart: the node is stopped and started again after the first complete flush cycle, so the race runs on a data
+	// family that was recovered from disk (its sequences come from the stored version, not from a first write)
+	Restart bool `json:"restart,omitempty"`
 }
 
 var raceScenarios = []raceScenario{
-	{"step|flush", 1, [][]string{{"step"}, {"flush"}}},
-	{"step,step|flush", 2, [][]string{{"step", "step"}, {"flush"}}},
-	{"step|flush|flush", 1, [][]string{{"step"}, {"flush"}, {"flush"}}},
-	{"step,step|flush,flush", 2, [][]string{{"step", "step"}, {"flush", "flush"}}},
+	{"step|flush", 1, [][]string{{"step"}, {"flush"}}, false},
+	{"step,step|flush", 2, [][]string{{"step", "step"}, {"flush"}}, false},
+	{"step|flush|flush", 1, [][]string{{"step"}, {"flush"}, {"flush"}}, false},
+	{"step,step|flush,flush", 2, [][]string{{"step", "step"}, {"flush", "flush"}}, false},
+	{"restart;step,step|flush,flush", 2, [][]string{{"step", "step"}, {"flush", "flush"}}, true},
+	{"restart;step|flush|flush", 1, [][]string{{"step"}, {"flush"}, {"flush"}}, true},
 }
 
 // all race entries go to the same, already durable series m1{host=a}: value 3^k
@@ -71,6 +76,13 @@ func raceSetup(sc raceScenario) {
 	replica.VerifReplicaOnce(n.part)
 	if err := n.box.Flush(models.ShardID(1), queryRange); err != nil {
 		vevid.OpFailed("flush: %v", err)
+	}
+	if sc.Restart {
+		n.close()
+		if n, err = openNode(root); err != nil {
+			vevid.OpFailed("restart before the race: %v", err)
+		}
+		rw.n = n
 	}
 	for i := 0; i < sc.Pending; i++ {
 		if err := n.part.WriteLog(raceMsg(rw.appended)); err != nil {
